@@ -20,7 +20,7 @@ META = {
   "h_int_tag": {"kind": "L",
     "functions": ["FieldData.set", "Field._get_default_gfa_tag_datatype", "Writer.field_to_s", "Field._to_gfa_tag", "integer.encode/decode", "Line.__init__ (reparse)", "FieldDatatype.get_datatype"],
     "bounds": "20 integer values (0, +-1, decimal-length boundaries, 2^31, 2^63, +-10^20) assigned to a new tag and to the predefined KC tag of S/L lines, vlevel 0..3",
-    "timeout": {"quick": 300, "thorough": 1200}, "parts": {"quick": 16, "thorough": 16}},
+    "timeout": {"quick": 300, "thorough": 900}, "parts": {"quick": 16, "thorough": 16}},
   "h_array_boundaries": {"kind": "L",
     "functions": ["FieldData.set", "numeric_array.encode/decode", "NumericArray.__str__/from_string/compute_subtype", "Writer.field_to_s", "Line.validate_field"],
     "bounds": "integer arrays [B + d1, e] for every subtype boundary B in {0,127,128,255,256,32767,32768,65535,65536,2^31-1,2^31,2^32-1,2^32,-128,-129,-32768,-32769,-2^31,-2^31-1}, d1 in -2..2, e in {0, -1, B}: written with the smallest subtype, read back equal with datatype B; out-of-range refused by validate_field and by writing at vlevel >= 2",
